@@ -134,10 +134,10 @@ def check_sbatch(scn, r, v, sim):
     if not ok:
         v.append(C.viol("C07:batch-limit", f"{tag} (group g{gi}: {g}): {why}"))
     o = r["sbatch_opts"]
-    want = {"account": f"acct{gi}", "partition": f"part{gi}", "time": H.group_walltime(g),
+    want = {"account": f"acct_{gi}", "partition": f"part_{gi}-x", "time": H.group_walltime(g),
             "job-name": f"pre{gi}_batch_{r['batch']}"}
     if gi % 2:
-        want["qos"] = "high"
+        want["qos"] = "high_prio"
     got = {k: o.get(k) for k in want}
     if got != want or (gi % 2 == 0 and "qos" in o):
         v.append(C.viol("C07:wrong-group-hpc-parameters", f"{tag} of group g{gi}: #SBATCH {o}; expected {want}"))
